@@ -192,12 +192,26 @@ Inductive tpath :=
 | QGetMut          (* get_mut() read, then written at w through it; into_inner: both results are returned *)
 | QLockIntoInner   (* guard taken and dropped, then into_inner *)
 | QTryNewReject    (* (data, &x, &x) given to a checked constructor: rejected, input dropped *)
-| QTryNewAccept.   (* (data, &x) accepted, locked, into_child, data taken back *)
+| QTryNewAccept    (* (data, &x) accepted, locked, into_child, data taken back *)
+| QIntoIter        (* the root collection consumed by its by-value iterator, every member's into_inner *)
+| QIntoIterFirst.  (* only the first member is taken out of the iterator; the rest is dropped with it *)
 
 Definition count_ev (e : ev -> bool) (l : list ev) : nat := length (filter e l).
 Definition is_drop (i : nat) (e : ev) : bool := match e with EDrop j => Nat.eqb i j | _ => false end.
 Definition is_cell (c : nat) (e : ev) : bool := match e with EFreeCell j => Nat.eqb c j | _ => false end.
 Definition is_cache (c : nat) (e : ev) : bool := match e with EFreeCache j => Nat.eqb c j | _ => false end.
+
+(* the by-value iterator of a root collection from which only the first member is taken: that member's into_inner, and the
+   rest dropped with the iterator *)
+Definition iter_first (t : vt) : option (list tok) * list ev :=
+  match t with
+  | TColl k c (TCont _ (m :: rest)) =>
+      let r := into_inner m in
+      (option_map flat (fst r),
+       into_child_ev k c ++ snd r ++ match fst r with Some i => drop_i i | None => [] end ++ concat (map drop_t rest))
+  | TColl k c (TCont _ []) => (Some [], into_child_ev k c)
+  | _ => (Some [], drop_t t)
+  end.
 
 (* what a path returns to the user (tokens) and every ownership event until all of it has been dropped *)
 Definition tmodel (p : tpath) (t : vt) (w : option nat) : option (list tok) * list ev :=
@@ -207,6 +221,10 @@ Definition tmodel (p : tpath) (t : vt) (w : option nat) : option (list tok) * li
       let t1 := match p with QIntoInner | QIntoChild => bump_at w t | _ => t end in
       let r := into_inner t1 in
       (option_map flat (fst r), snd r ++ match fst r with Some i => drop_i i | None => [] end)
+  | QIntoIter =>
+      let r := into_inner t in
+      (option_map flat (fst r), snd r ++ match fst r with Some i => drop_i i | None => [] end)
+  | QIntoIterFirst => iter_first t
   | QGetMut =>
       (* the write goes through the structure get_mut returns; into_inner then sees it *)
       match get_mut t with
@@ -244,7 +262,8 @@ Definition mon_T16 (p : tpath) (t : vt) (w : option nat) (returned : list tok) (
   forallb (fun i => Nat.eqb (nth i drops 0) (if memb i (ids t) then 1 else 0)) (seq 0 (length drops)) &&
   match p with
   | QDrop | QDropUnw | QTryNewReject => is_nil returned
-  | QLockIntoInner | QTryNewAccept => toks_eqb returned (expect_vals t None)
+  | QLockIntoInner | QTryNewAccept | QIntoIter => toks_eqb returned (expect_vals t None)
+  | QIntoIterFirst => toks_eqb returned (match t with TColl _ _ (TCont _ (m :: _)) => flat (spec m) | _ => [] end)
   | QIntoInner | QIntoChild => toks_eqb returned (expect_vals t w)
   | QGetMut => toks_eqb returned (expect_vals t None ++ expect_vals t w)
   end.
